@@ -742,8 +742,11 @@ def vc_blade2canon(H):
                         ctx.oblige('post: the canonical blade is the one with exactly the spelled generators', r[0].K.t == mask)
                         a, kw = calls[0]
                         tgt = kw.get('target', a[2] if len(a) > 2 else None)
-                        ctx.oblige("call: _swap_blades(spelling, '', target=canonical name)",
-                                   a[0] is name and a[1] == '' and tgt is r[0])
+                        # the generator characters only (without the 'e' every name starts with: a generator may itself be named 'e')
+                        ok_sp = isinstance(a[0], Spelling) and len(a[0].chars) == len(chars) and all(x is y for x, y in zip(a[0].chars, chars))
+                        ok_tg = isinstance(tgt, SpellOf) and tgt.K is r[0].K
+                        ctx.oblige("call: _swap_blades(spelling[1:], '', target=canonical name[1:])", ok_sp and a[1] == '' and ok_tg,
+                                   meta={'got': repr((a, kw))[:200]})
                 else:
                     ok = isinstance(r, tuple) and len(r) == 2 and r[1] == 0 and not calls and not isinstance(r[0], NameOf)
                     ctx.oblige('post: a generator outside the algebra yields the out-of-space marker and 0 swaps', bool(ok))
@@ -751,7 +754,7 @@ def vc_blade2canon(H):
             H.run_paths(fuc, f'len={n},{variant}', body)
 
 
-def vc_blade2canon_concrete(H, d=4):
+def vc_blade2canon_concrete(H, d=4, start=1):
     """Bounded (all spellings of all blades of the default-basis algebra with d generators, d=4: 64 spellings): the real
     _blade2canon with the real _swap_blades inlined must return the canonical name and a swap count with the parity of the
     spelling."""
@@ -759,7 +762,7 @@ def vc_blade2canon_concrete(H, d=4):
     import operator
     import functools
     fuc = H.fn(REL, 'Algebra._blade2canon')
-    names = {K: 'e' + ''.join(format(i + 1, 'x') for i in range(d) if K >> i & 1) for K in range(2 ** d)}
+    names = {K: 'e' + ''.join(format(i + start, 'x') for i in range(d) if K >> i & 1) for K in range(2 ** d)}
     canon2bin = {n: K for K, n in names.items()}
 
     def body(ctx):
@@ -778,9 +781,9 @@ def vc_blade2canon_concrete(H, d=4):
                     bad.append((sp, repr(r)))
         ctx.oblige(f'_blade2canon on all {n} spellings (d={d}): canonical name and swap parity == permutation parity', not bad,
                    meta={'wrong': bad[:5]})
-        r = clo(me, 'e9')
+        r = clo(me, 'e9' if start + d <= 9 else 'e1')
         ctx.oblige('_blade2canon: a generator outside the algebra gives the out-of-space marker', r == (f'e{2 ** d}', 0))
-    H.run_paths(fuc, f'all-spellings-d={d}', body)
+    H.run_paths(fuc, f'all-spellings-d={d},start_index={start}', body)
 
 
 def vc_bladedict_getitem(H):
